@@ -1230,6 +1230,10 @@ func (interp *Interpreter) cfg(root *node, sc *scope, importPath, pkgName string
 
 		case breakStmt:
 			if len(n.child) == 0 {
+				if sc.loop == nil {
+					err = n.cfgErrorf("break is not in a loop, switch, or select")
+					break
+				}
 				n.tnext = sc.loop
 				break
 			}
@@ -1241,6 +1245,10 @@ func (interp *Interpreter) cfg(root *node, sc *scope, importPath, pkgName string
 
 		case continueStmt:
 			if len(n.child) == 0 {
+				if sc.loopRestart == nil {
+					err = n.cfgErrorf("continue is not in a loop")
+					break
+				}
 				n.tnext = sc.loopRestart
 				break
 			}
